@@ -122,6 +122,11 @@ def run(ctx):
     ins = [s for s, ai, mut in calls_on_field(prog, RC, "objects", funcs=[co]) if method_name(s) == "insert"]
     atc = call_sites(co, lambda p, c: p == OR + "::attach_fdt")
     nxt = [s for s in call_sites(co, lambda p, c: p.endswith("::next"))]
+    # the same search written with an adaptor: `self.fdt_current.iter_mut().position(|fdt| .. obj.attach_fdt(..))`
+    srch = foreach_sites(prog, co, r"^self\.fdt_current\b", lambda p: p == OR + "::attach_fdt", unconditional=False, search=True)
+    if not nxt and srch:
+        atc = atc or [z_[2] for z_ in srch]
+        nxt = [z_[2] for z_ in srch]
     for s in ins:
         # the loop (iterator next) dominates the insert: attachment attempted before registration
         if atc and nxt and all(cf.dominates(n.bb, s.bb) for n in nxt):
